@@ -277,7 +277,13 @@ func genC02Ops(t *rapid.T) []c02Op {
 		case k < 87:
 			ops = append(ops, c02Op{Op: "failnewtxn", Arg: rapid.IntRange(0, 1).Draw(t, "idx")})
 		case k < 90:
-			ops = append(ops, c02Op{Op: "gate", Arg: rapid.IntRange(1, 6).Draw(t, "gatems")})
+			ms := rapid.IntRange(1, 6).Draw(t, "gatems")
+			// rarely a store that stalls for seconds (time-bounded fall-backs in the engine only
+			// show with a stall longer than their bound); costs real time, hence rare
+			if lab.Uniform(t, "longstall", pbt.Scale(160, 40)) == 0 {
+				ms = 5500
+			}
+			ops = append(ops, c02Op{Op: "gate", Arg: ms})
 		case k < 94:
 			ops = append(ops, c02Op{Op: "release"})
 		case k < 97:
